@@ -116,6 +116,19 @@ class SeqModel(Model):
             return ["-"]
         return [str(len(v))] + [("u" if c is None else c) for c in v]
 
+    def fresh_cell(self):
+        """a cell created by a sized constructor / growing resize: utl::vector value-initialises it like std::vector
+        (T(), empty optional, first alternative); static_vector / small_vector leave it unspecified (None)"""
+        if self.kind != "vec":
+            return None
+        return {"maybe_int": "N", "either_int_double": "L0"}.get(self.et, "0")
+
+    def objs(self):
+        # std::vector<counted> holds exactly size() live objects
+        if self.et == "counted":
+            return sum(len(v) for v in self.slots if v is not None)
+        return 0
+
     def bound(self):
         if self.kind in ("vec", "smallu", "smalld"):
             return sum(1 for v in self.slots if v is not None)
@@ -139,7 +152,7 @@ class SeqModel(Model):
                 return "skip"
             if S[x] is not None:
                 return None
-            S[x] = [None] * a
+            S[x] = [self.fresh_cell()] * a
             return "ctor_sized0" if a == 0 else "ctor_sized"
         if op == 3:
             n = a
@@ -183,7 +196,7 @@ class SeqModel(Model):
                 return "resize_shrink"
             if a == old:
                 return "resize_same"
-            S[x].extend([None] * (a - old))
+            S[x].extend([self.fresh_cell()] * (a - old))
             return "resize_grow"
         if op == 8:
             if S[x] is None or not S[x] or a < 0:
